@@ -13,7 +13,7 @@ from fractions import Fraction as Fr
 from lib.rat import R, F, close, dev
 
 ID = "C05"
-QUICK_N = 1500
+QUICK_N = 1200
 THOROUGH_N = 12000
 QUICK_BUDGET_S = 80
 THOROUGH_BUDGET_S = 900
@@ -33,7 +33,18 @@ RULE = ("in-memory charts over the five layouts: 1-8 (rarely up to 1294) 4/4 tem
         "caller-owned dict used for all writes of the script and edited in place between two writes (lane added / removed / two "
         "lanes swapped): model and by-the-book denotation are given the layout as it is at that write, and the writer must not "
         "modify the dict; long charts: a first tempo segment of 985-1000 measures at a high tempo with objects and tempo points "
-        "in measures 988-999 (and, outside the domain: D36, in measures >= 1000); non-trivial = at least 2 tempo points with an "
+        "in measures 988-999 (and, outside the domain: D36, in measures >= 1000); HOW THE CHART IS OBTAINED: half of the cases "
+        "hand the writer a chart that did not come from the constructors — the chart built in memory is written once with a SOURCE "
+        "layout (any of the five) and read back through BMSMap.read / BMSMap.read_file with that layout passed by position, by "
+        "keyword or (BME) left to the default argument, or its rows are put into an osu!/Quaver chart and converted with "
+        "OsuToBMS / QuaToBMS; then optionally deep-copied, rated (1.0, 2.0, 0.5), edited (hits shifted, title / play level renamed, "
+        "lists replaced by copies); the chart that results — rows, header fields, sample table, other keys as they are on the object "
+        "— is what model and judge are given; EVERY WRITE NAMES ITS LAYOUT: each write / write_file of the script has its own layout "
+        "(any of the five, columns drawn from the lanes common to all layouts involved) handed over by position, by keyword or "
+        "(BME table) by the default argument, several writes of one object with different layouts in a row; the written bytes are "
+        "judged under the layout in force at THAT write; beyond objects and tempo the judge demands that an object whose in-memory "
+        "sample is a file of the chart's #WAV table is denoted with exactly that sample, and that the file's title / artist / play "
+        "level are the in-memory ones (D46 when the chart's other keys shadow them); non-trivial = at least 2 tempo points with an "
         "object after the second, or an off-grid object, or a hold")
 ASSUMPTIONS = [
     "pandas row LABELS are outside the model (the writer model sees rows by position); they are exercised by the harness: "
@@ -43,6 +54,12 @@ ASSUMPTIONS = [
     "the harness compares the numbers",
     "pandas groupby/sort_values/iterrows are modelled as list operations; row order inside one (measure, channel, den) "
     "group is unspecified (numpy quicksort) and only matters for colliding objects, which the property excludes",
+]
+ASSUMPTIONS += [
+    "a 'hold' whose tail is not after its head (the library's reader makes one from a text whose head and marker sit on split "
+    "lines: D05) is outside the property's quantifier",
+    "header text fields are compared only when they are plain bytes without line breaks or leading white space; trailing white "
+    "space is stripped by every reader (bms_write_read_header states rstrip)",
 ]
 TRUSTED_EXTRA = ["the denotation of the written bytes uses the lexer shared with the reader model (Spec/BMS.lean)"]
 
